@@ -160,6 +160,12 @@ def run(chk: core.Check, replay=None) -> None:
                         chk.count(1, ("short", pb_["tid"]))
                         if any(int(r.flag) & 7 for r in pb_["rows"]):
                             chk.stratum("request_shorter_than_step_with_event")
+                        # ... and the same with the range ending right at the event: the crossing is detected on the LAST iteration
+                        # of the loop, and the closing row follows it at once
+                        sh2 = copy.deepcopy(base)
+                        sh2.update({"range_ft": xe - 0.25 * ms, "step_ft": 3 * xe, "extra": True})
+                        fire(sh2)
+                        chk.count(1)
     loopsuite.validate(chk, "C11", outs, pairs)
     chk.sample({"base": outs[0]["sc"], "variant": outs[1]["sc"], "pair_lines": pairs[:2]})
     chk.sample({"tlc_behaviour": {k: v for k, v in behs[0].items() if k != "consts"}})
